@@ -13,18 +13,34 @@
 (* (Prog/Pairs), not from the observation.                                    *)
 (* States: i runs over the observations in Stripes interleaved chains so that *)
 (* TLC's workers validate in parallel; distinct states = Len(Obs) + Stripes.  *)
-EXTENDS UnitAlg, IOUtils
+EXTENDS UnitAlgMR, IOUtils
 CONSTANT Stripes
 Obs == JsonDeserialize(IOEnv.OBS)
 VARIABLE i
 
+\* For a phase of a registry history (o.hist) the reference table is the one the HISTORY has reached (what the caller
+\* put into the registry), not what the harness read back from the registry.
+HistAlg(o) == LET T == TableAt(o.edits, o.ph) IN [x \in DOMAIN o.atoms |-> T[AIdx(o.atoms[x])].lg]
+HistAdim(o) == LET T == TableAt(o.edits, o.ph) IN [x \in DOMAIN o.atoms |-> T[AIdx(o.atoms[x])].dim]
 RunOf(o) ==
   LET prs == Pairs(o.law) IN
-  [law |-> o.law, exact |-> o.exact, alg |-> o.alg, adim |-> o.adim, regs |-> o.regs, prog |-> Prog(o.law, o.p, o.q),
+  [law |-> o.law, exact |-> o.exact, hist |-> o.hist,
+   alg |-> IF o.hist THEN HistAlg(o) ELSE o.alg, adim |-> IF o.hist THEN HistAdim(o) ELSE o.adim,
+   regs |-> o.regs, prog |-> Prog(o.law, o.p, o.q),
    pairs |-> [x \in DOMAIN prs |-> [i |-> prs[x].i, j |-> prs[x].j, kind |-> prs[x].kind, eq |-> o.pairs[x].eq,
                                       eqr |-> o.pairs[x].eqr, heq |-> o.pairs[x].heq, same |-> o.pairs[x].same,
                                       serr |-> o.pairs[x].serr]],
    herr |-> o.herr, hcond |-> o.hcond, ain |-> o.ain, aoff |-> o.aoff]
+\* C05_State: the same expression built in the same registry state is the same unit and hashes equally - phase ph against
+\* every earlier phase of the same history whose table is the same (an edit was undone).  hc = class of the hash value.
+StateFails(idx, o) ==
+  {[clause |-> "State", at |-> r] : r \in {x \in DOMAIN o.regs :
+      \E d \in 1..o.ph :
+        LET q == Obs[idx - d] a == q.regs[x] b == o.regs[x] IN
+        /\ TableAt(o.edits, o.ph) = TableAt(o.edits, o.ph - d)
+        /\ IsUnit(a) /\ IsUnit(b)
+        /\ ~(/\ a.lg = b.lg /\ a.neg = b.neg /\ a.dim = b.dim /\ a.off = b.off
+             /\ (SameExpr(a, b) => q.hc[x] = o.hc[x]))}}
 ShapeOk(o) == Len(o.regs) = NLeaf + Len(Prog(o.law, o.p, o.q)) /\ Len(o.pairs) = Len(Pairs(o.law)) /\ Len(o.herr) = Len(Prog(o.law, o.p, o.q)) /\ Len(o.hcond) = Len(o.herr)
 
 (* ---- T ---- *)
@@ -50,12 +66,10 @@ TRule(W, k) ==
             /\ st.ex = o.ex
             /\ W.exact => (o.cf = st.clg /\ o.lg = RSub(m.lg, st.clg) /\ o.clg = RZero)
 TStep(W, k) ==
-  LET ins == W.prog[k] o == Res(W, k) a == W.regs[ins.a] IN
+  LET ins == Sem(W.prog[k]) o == Res(W, k) a == W.regs[ins.a] IN
   CASE ins.op = "mul" -> Match(UMul(a, W.regs[ins.b], W.exact), o, W.exact)
     [] ins.op = "div" -> Match(UDiv(a, W.regs[ins.b], W.exact), o, W.exact)
-    \* (a unit with an offset under an exponent other than 1: today the offset is dropped; refusing is accepted as well)
-    [] ins.op = "pow" -> IF IsUnit(a) /\ HasOff(a) /\ Eff(ins.e) # ROne /\ ~IsUnit(o) THEN TRUE
-                         ELSE Match(UPow(a, ins.e, W.exact), o, W.exact)
+    [] ins.op = "pow" -> Match(UPow(a, ins.e, W.exact), o, W.exact)
     [] ins.op = "simplify" ->
          IF ~IsUnit(a) THEN ~IsUnit(o)
          \* (a symbol missing from the registry raises only if its pair is reached before the others have cancelled
@@ -83,6 +97,8 @@ TFails(W) ==
   {[what |-> "step", at |-> k] : k \in {x \in DOMAIN W.prog : ~TStep(W, x)}}
   \cup {[what |-> "pair", at |-> k] : k \in {x \in DOMAIN W.pairs : ~TPair(W, x)}}
   \cup {[what |-> "leaf", at |-> k] : k \in {x \in 1..NLeaf : ~TLeaf(W, x)}}
+\* the rows the harness read back from the edited registry are the rows of the history's table (the registry's own job: C12)
+TTable(o) == o.hist => (o.alg = HistAlg(o) /\ o.adim = HistAdim(o))
 
 Init == i \in 1..Stripes
 Next ==
@@ -94,5 +110,7 @@ Next ==
      ELSE LET W == RunOf(o) IN
           /\ \A f \in Fails(W) : PrintT(ToJson([tag |-> "P-FAIL", idx |-> i, clause |-> f.clause, at |-> f.at]))
           /\ \A f \in TFails(W) : PrintT(ToJson([tag |-> "T-FAIL", idx |-> i, what |-> f.what, at |-> f.at]))
+          /\ (o.hist => \A f \in StateFails(i, o) : PrintT(ToJson([tag |-> "P-FAIL", idx |-> i, clause |-> f.clause, at |-> f.at])))
+          /\ (~TTable(o) => PrintT(ToJson([tag |-> "T-FAIL", idx |-> i, what |-> "table", at |-> 0])))
   /\ i' = i + Stripes
 =============================================================================
